@@ -221,10 +221,32 @@ def gen_sizes(run):
         cases.append({"text": "10 A=" + "INT(" * min(n, 60) + "1" + ")" * min(n, 60) + "\n", "opts": {}, "origin": f"int{n}", "gen": "size"})
         cases.append({"text": "10 " + "IF A THEN " * min(n, 60) + "B=1\n", "opts": {}, "origin": f"if{n}", "gen": "size"})
         cases.append({"text": "10 A=1" + "+1" * n + "\n", "opts": {}, "origin": f"sum{n}", "gen": "size"})
+    for n in ([500, 1000, 3000] if quick else [500, 1000, 2000, 3000, 6000]):
+        cases.append({"text": "10 A=1" + "+1" * n + "\n", "opts": {}, "origin": f"sum{n}", "gen": "size"})
+        cases.append({"text": '10 A$="X"' + '+"X"' * n + "\n", "opts": {}, "origin": f"cat{n}", "gen": "size"})
+        cases.append({"text": "10 PRINT 2" + "*B" * n + "\n", "opts": {"output_dependencies": True, "procname": "p"}, "origin": f"prod{n}", "gen": "size"})
     for n in ([1, 10, 100, 400] if quick else [1, 10, 100, 400, 1000]):
         cases.append({"text": "10 " + ":".join(["A=A+1"] * n) + "\n", "opts": {}, "origin": f"stmts{n}", "gen": "size"})
     for n in ([1, 10, 100, 500] if quick else [1, 10, 100, 500, 1500, 3000]):
         cases.append({"text": "".join(f"{i+1} A=A+1\n" for i in range(n)), "opts": {"initialize_vars": True}, "origin": f"lines{n}", "gen": "size"})
+    run.states += len(cases)
+    run.transitions += len(cases)
+    return cases
+
+
+def gen_scanner_texts(run):
+    """look-alikes of what the bundler scans for (RUN <word>, REM, procedure headers, the size placeholder) inside string
+    literals / remarks / DATA with 0..60 characters after them, dependencies on and off"""
+    cases = []
+    heads = ["RUN FOR", "RUN ecb_play", "REM", "procedure x", ": STRING<<>>", "(* RUN x", "RUN X RUN Y RUN Z"]
+    tails = ["", " YOUR LIFE", " YOUR LIFE - THE DRAGON IS RIGHT BEHIND YOU NOW", " " + "AB " * 20]
+    forms = ['PRINT "{}"', 'A$ = "{}" : B$ = "{}"', "REM {}", "' {}", "DATA {}", 'DATA "{}" , "{}"', 'PRINT "{}']
+    for h in heads:
+        for t in tails:
+            for f in forms:
+                stmt = f.replace("{}", h + t)
+                for o in ({}, {"output_dependencies": True, "procname": "dragon"}, {"output_dependencies": True, "procname": "dragon", "default_str_storage": 80, "initialize_vars": True}):
+                    cases.append({"text": K.program_for([stmt, 'PLAY "C"']), "opts": o, "origin": f"scanner:{h}", "gen": "scan"})
     run.states += len(cases)
     run.transitions += len(cases)
     return cases
@@ -342,6 +364,8 @@ def run(run):
         cases += gen_sizes(run)
     if not run.only or "cfg" in run.only:
         cases += gen_configs(run)
+    if not run.only or "scan" in run.only:
+        cases += gen_scanner_texts(run)
     i = 0
     keys = set()
     accept = {}
